@@ -3,6 +3,7 @@ package datalog
 import (
 	"errors"
 	"fmt"
+	"math"
 	"math/big"
 	"regexp"
 	"strings"
@@ -747,6 +748,11 @@ func (Div) Eval(left Term, right Term, _ *SymbolTable) (Term, error) {
 
 	if iright == 0 {
 		return nil, ErrExprDivByZero
+	}
+
+	// the only quotient that does not fit in 64 bits
+	if ileft == math.MinInt64 && iright == -1 {
+		return nil, ErrInt64Overflow
 	}
 
 	return Integer(ileft / iright), nil
